@@ -254,6 +254,13 @@ func Scenarios(tier string) []*Scenario {
 	tRA := threadSpec{u: ra, tree: 0, steps: []step{{kind: "range", k: ra.Bounds[0], b: ra.Bounds[len(ra.Bounds)-1]}, {kind: "range", k: ra.Bounds[1], b: ra.Bounds[2]}}}
 	tRB := threadSpec{u: rb, tree: 1, steps: []step{{kind: "range", k: rb.Free[0], b: rb.Free[2]}, {kind: "range", k: rb.Free[3], b: rb.Free[1]}}}
 	out = append(out, build("private-2/range-range", "two goroutines, private trees of different kinds, both run bounded range scans after an earlier scan stopped at its upper bound", 2, []threadSpec{tRP, tRA, tRB}))
+	// two default collation trees (anything the constructor shares between trees, e.g. a collator, is in play;
+	// the collator's internals are outside the instrumented package, so this one is mainly for the free-running race pass)
+	co1 := hist.NewCollUniverse(hist.CollSpec{Name: "S-COLLa", Free: []string{"a", "A", "ab", "résumé"}}, hist.Collators()[0], "string", false)
+	co2 := hist.NewCollUniverse(hist.CollSpec{Name: "S-COLLb", Free: []string{"b", "B", "日本", "ba"}}, hist.Collators()[0], "string", false)
+	tC1 := threadSpec{u: co1, tree: 0, steps: []step{{kind: "insert", k: f(co1, 0), n: 1}, {kind: "insert", k: f(co1, 1), n: 2}, {kind: "insert", k: f(co1, 3), n: 3}, {kind: "search", k: f(co1, 1)}, {kind: "all"}}}
+	tC2 := threadSpec{u: co2, tree: 1, steps: []step{{kind: "insert", k: f(co2, 0), n: 1}, {kind: "insert", k: f(co2, 2), n: 2}, {kind: "insert", k: f(co2, 1), n: 3}, {kind: "search", k: f(co2, 2)}, {kind: "all"}}}
+	out = append(out, build("private-2/collation-collation", "two goroutines, each with its own default-collator collation tree", 2, []threadSpec{tC1, tC2}))
 	// path split / merge (node4 taken and released) against node4 -> node16 -> node4
 	s1 := hist.NewAlphaUniverse(hist.AlphaSpec{Name: "S-SPLIT", Setup: []string{"abc1", "abc2", "abd"}, Free: []string{"abX", "abc1"}, NoAutoP: true}, "string")
 	s2 := hist.ProductTreeU16("S-N4@4", hist.FanSpec{Hold: 4, Present: 2, Absent: 2})
